@@ -152,6 +152,19 @@ register('C17',
          'Coq proof (list lemmas on add_changes + fold over operations) + vm_compute replay of recorded traces',
          'DESIGN.md §7 C17')
 
+register('C10',
+         'Coq theorems: after the link / unlink statements of one transaction (any number, any order, the same pair several times) '
+         'are written with the current id - at least every id in the table - replaying the association-version rows (newest row '
+         'per pair, linked iff not a DELETE) yields exactly the live link set; at most one row per link and transaction; rows of '
+         'other transactions (hence the replay up to any earlier transaction) are untouched; ids never dangle (C02). Link '
+         'histories (single/bulk, either side, link+unlink of one pair in one transaction with a flush between, re-adds, deleted '
+         'parents/targets) are run on the real code with an unversioned twin run, and replay / frame / touched-pairs-only are '
+         'checked after every commit.',
+         COMMON_NOTE + 'Self-referential many-to-many is not in the generated shapes. The application-side association table is defined by '
+         'the recorded INSERT/DELETE statements.',
+         'Coq proof (induction over the statement list with a newest-row invariant) + vm_compute replay of recorded traces + twin run',
+         'DESIGN.md §7 C10')
+
 ALL = ['C%02d' % i for i in range(1, 21)]
 
 
